@@ -2,6 +2,7 @@
 // Oracle: the layout definition (block b = evaluations 4b..4b+3, real parts then imaginary parts) and
 // complex arithmetic in long double with the Appendix-A rounding budgets.
 #include "lib.h"
+#include "ops.h"
 
 #define U53 0x1p-53L
 
@@ -465,6 +466,16 @@ static void simple_case(uint64_t m, unsigned rep) {
 
 void run_C17(void) {
   const int th = G.thorough;
+  {
+    static const char* const CNAMES[] = {"reim_fftvec_mul", "reim_fftvec_addmul", "cplx_fftvec_mul", "cplx_fftvec_addmul", "reim4_fftvec_mul", "reim4_fftvec_addmul", "reim4_from_cplx", "reim4_to_cplx", "reim4_extract_1blk_from_contiguous_reim_ref", "reim4_extract_1blk_from_contiguous_reim_avx", "reim4_extract_1blk_from_reim_ref", "reim4_extract_1blk_from_reim_avx", "reim4_save_1blk_to_reim_ref", "reim4_save_1blk_to_reim_avx", "reim4_vec_mat1col_product_ref", "reim4_vec_mat1col_product_avx2", "reim4_vec_mat2cols_product_ref", "reim4_vec_mat2cols_product_avx2", "reim4_convolution_ref", "reim_fftvec_mul(r==a)", "cplx_fftvec_mul(r==b)", "reim4_fftvec_mul(r==a==b)"};
+    static const uint64_t CNS[] = {8, 64, 1024, 16384};
+    for (size_t i = 0; i < ARRAY_LEN(CNS); i++)
+      for (int cfg = DISP_NATIVE; cfg >= DISP_GENERIC; cfg--)
+        for (unsigned rep = 0; rep < (th ? 5u : 1u); rep++) {
+          if (!th && CNS[i] > 4096 && cfg == DISP_GENERIC) continue;
+          ops_concurrent_case("C17 entry points", CNAMES, (int)ARRAY_LEN(CNAMES), CNS[i], cfg, CNS[i] <= 256 ? 8 : 4, rep, "concurrent_entry_calls");
+        }
+  }
   unsigned ctr = 0;
   for (unsigned k = 2; k <= 16; k++) {
     const uint64_t m = 1ull << k;
